@@ -227,14 +227,45 @@ def r5(ctx):
         ctx.check(P, rule, "Events::send broadcasts once", len(tb) == 1 and not fe.loops() and strip(fe.arg_origin(tb[0], 1))[0] in ("param", "call") and "evt" in term_str(fe.arg_origin(tb[0], 1)), "one try_broadcast(evt.into())", "Events::send does not broadcast its argument exactly once")
 
 
-for _r in (r1, r2, r3, r4, r5):
+def r6(ctx):
+    """the event channel keeps what the property promises: C13 quantifies over subscribers with
+    fewer than 32 undrained events, so the queue the core creates must hold at least 32 — the
+    channel runs in overflow mode and silently evicts the oldest events beyond its capacity, for
+    every subscriber.  Clause: every `async_broadcast::broadcast(cap)` whose sender carries `Event`s
+    (the one in Events::new) is created with a compile-time capacity >= 32; and that queue is
+    not shrunk afterwards (no set_capacity on it)."""
+    rule = "C13.R6"
+    EV_NEW = "replication::events::Events::new"
+    fa = ctx.fn(EV_NEW)
+    if not need(ctx, P, rule, EV_NEW, fa):
+        return
+    bs = [s for s, t in fa.calls() if (t.get("callee") or "") == "async_broadcast::broadcast"]
+    if not need(ctx, P, rule, "Events::new: the broadcast channel", bs):
+        return
+    for s_ in bs:
+        cap = ev(ctx, fa.arg_origin(s_, 0))
+        ctx.check(P, rule, "the event queue holds the 32 events the property allows to be undrained", isinstance(cap, int) and cap >= 32, "broadcast(%s)" % cap,
+                  "Events::new creates the event channel with capacity %s (%s): the channel evicts the oldest events beyond its capacity, so a subscriber that is %s events behind — inside the property's bound of 32 — loses events that were announced" % (
+                      cap, term_str(fa.arg_origin(s_, 0))[:80], "fewer than 32" if cap is None else "more than %s" % cap),
+                  [site_desc(fa, s_)], key="C13|C13.R6|Events::new|queue capacity")
+    shrink = []
+    for fx in ctx.all_fas():
+        if "::test" in fx.body.name:
+            continue
+        for s_, t in fx.calls():
+            if (t.get("callee") or "").startswith("async_broadcast::") and (t.get("callee") or "").split("::")[-1] == "set_capacity":
+                shrink.append(site_desc(fx, s_))
+    ctx.check(P, rule, "the capacity of the event queue is not changed after creation", not shrink, "no set_capacity", "set_capacity is called at %s" % shrink, shrink, key="C13|C13.R6|set_capacity")
+
+
+for _r in (r1, r2, r3, r4, r5, r6):
     _r.needs_feature = "replication"
-RULES = [r1, r2, r3, r4, r5]
+RULES = [r1, r2, r3, r4, r5, r6]
 CONTROLS = ["c13_send_outside_owner"]
 EXPLANATION = ("C13 (events announce exactly the state changes): decides who may emit (R1: Events::send only from append_batch, verify_and_apply_proof and send_on_get; "
                "the channel only from Events::send; clear / make_read_only emit nothing), that append emits DataUpgrade then Have for the very BitfieldUpdate applied, only for a "
                "non-empty batch and after bitfield+tree commit (R2), that a proof emits DataUpgrade iff proof.upgrade.is_some() and Have{block.index,1} iff a block was applied (R3), "
                "that no error path is reachable after the first send (R4; with C10.R3: no send on any error edge), and that get emits one Get{index} exactly on the not-held edge, "
-               "followed by Ok(None) (R5).")
-NOT_DECIDED = "delivery semantics of async-broadcast (same order for all subscribers, overflow at 32 undrained events); that the union of announced ranges equals the blocks that became available (value level); the indirect get event raised by create_proof through Hypercore::get."
+               "followed by Ok(None) (R5); and that the event queue is created with a compile-time capacity of at least the 32 undrained events the property allows (R6).")
+NOT_DECIDED = "delivery semantics of async-broadcast (same order for all subscribers, eviction of the oldest events beyond the capacity R6 bounds); that the union of announced ranges equals the blocks that became available (value level); the indirect get event raised by create_proof through Hypercore::get."
 ASSUMPTIONS = ["async-broadcast delivers in send order"]
